@@ -2675,7 +2675,7 @@ class PiecewiseConvex:
         if not isinstance(other, Real):
             raise TypeError('Incorrect syntax.')
 
-        other_sign = np.sign(other)
+        other_sign = np.sign(other) if other != 0 else 1
         other_abs = abs(other)
 
         pieces = [piece*other_abs for piece in self.pieces]
